@@ -442,7 +442,10 @@ def check_property(pid, tier, seed, replay=None):
                         s = r["summary"] or {"cases": 0, "nontrivial": 0, "tags": {}, "samples": []}
                         r.update(cases=s["cases"], nontrivial=s["nontrivial"], tags=s["tags"], samples=s["samples"])
                         absorb(d["name"] + ".corpus", c, r, d.get("faults_only", False))
-                absorb(d["name"], c, run_domain(exes[c], c, d["name"], tier, seed, keep=d.get("keep", "")), d.get("faults_only", False))
+                # domains borrowed from other properties for sanitizer faults only keep their quick budget in the thorough tier
+                # (their own property explores them in depth; intfmt thorough alone is an exhaustive 2^32 sweep)
+                dtier = "quick" if (d.get("faults_only", False) and tier == "thorough") else tier
+                absorb(d["name"], c, run_domain(exes[c], c, d["name"], dtier, seed, keep=d.get("keep", "")), d.get("faults_only", False))
         # widened search: something no longer checks but no concrete failing input yet
         new_rejects = [r for r in rejects if not set(relevant(r)) <= known_clauses]
         if (proof_problems or diffs) and not new_rejects and not faults and tier != "thorough":
